@@ -214,6 +214,19 @@ OpCheck(o) ==
          ELSE IF ident = "4076_201" /\ st = "ok"
               THEN IF HarmHelperOK(o) THEN << >> ELSE <<"HarmHelper", <<ident>> >>
          ELSE IF o.none THEN << >> ELSE <<"HelperNotNone", <<"parse_4076_201", ident>> >>
+    [] o.op = "strshape" ->        \* str(msg): identity, attribute names in decode order, stub marker
+         IF o.raised # "" THEN <<"StrShape", <<"raised", o.raised>> >>
+         ELSE IF o.ident # ident THEN <<"StrShape", <<"identity", o.ident, ident>> >>
+         ELSE IF o.snames # StrNames THEN <<"StrShape", <<"names", Len(o.snames), Len(attrs)>> >>
+         ELSE IF o.flag # (st = "stub") THEN <<"StrShape", <<"stub marker", o.flag>> >>
+         ELSE << >>
+    [] o.op = "get_bit" ->         \* get_bit(payload, n) for the recorded positions
+         IF o.raised # "" THEN <<"GetBit", <<"raised", o.raised>> >>
+         ELSE IF \A i \in 1 .. Len(o.idx) : o.idx[i] < Len(bits) => o.bytes[i] = GetBit(p, o.idx[i]) THEN << >>
+         ELSE <<"GetBit", <<"wrong bit">> >>
+    [] o.op = "len2bytes" ->
+         IF o.raised # "" THEN <<"Len2Bytes", <<"raised", o.raised>> >>
+         ELSE IF o.bytes = Len2Bytes(p) THEN << >> ELSE <<"Len2Bytes", <<o.bytes>> >>
     [] o.op = "names" ->
          IF Len(o.names) # Len(attrs) THEN <<"Names", <<"count", Len(o.names), Len(attrs)>> >>
          ELSE LET i == FirstBadName(o) IN
